@@ -215,3 +215,54 @@ Proof.
       destruct (F _ _ Hox) as [F1|[F1 F2]]; rewrite F1 in Hx; inversion Hx; subst thx'; auto.
       apply e4_thread_ok_grant; auto. intros _. unfold e4_holds. now rewrite El.
 Qed.
+
+(* ---- cancellation ------------------------------------------------------------------------------------------------ *)
+(* the per-thread invariant does not read [t_cancelled] *)
+Lemma e4_thread_ok_cancelled s t th : e4_thread_ok s t th -> e4_thread_ok s t (with_cancelled th).
+Proof. intros [K1 K2 K3 K4 K5 K6 K7 K8 K9]. constructor; auto. Qed.
+
+(* release of the account locks (+ FIFO recheck) by a thread that finishes in the same step: the cancelled waiter
+   that had been granted meanwhile. [thf] is the finished thread written over whatever the pass left at [t]. *)
+Lemma e4_inv_unlock_fin s s' t th thf q' ths' locks' :
+  e4_Inv s ->
+  recheck (v_queue s) (threads s) (filter (fun h => negb (Nat.eqb (fst (fst h)) t)) (v_locks s)) = (q', ths', locks') ->
+  get_thread (threads s) t = Some th -> t_pc th <> PAppended -> t_pc th <> PWait -> t_pc thf = PFinished ->
+  persisted s' = persisted s -> v_pending s' = v_pending s -> v_batch s' = v_batch s -> v_uid s' = v_uid s ->
+  v_cs s' = v_cs s -> v_locks s' = locks' -> threads s' = set_thread ths' t thf -> e4_Inv s'.
+Proof.
+  intros HI Hr Hth N1 N2 Hpf Ep Epd Eb Eu Ec El Et.
+  assert (Pf : e4_pairwise (filter (fun h => negb (Nat.eqb (fst (fst h)) t)) (v_locks s))).
+  { eapply e4_pairwise_incl; [apply incl_filter | apply i_locks; auto]. }
+  destruct (e4_recheck_spec _ _ _ _ _ _ Hr Pf) as (P' & I & F & Nn).
+  assert (Ei : e4_inflight s' = e4_inflight s) by (unfold e4_inflight; now rewrite Epd, Eb).
+  assert (Ea : e4_all s' = e4_all s) by (unfold e4_all; now rewrite Ep, Ei).
+  assert (Hk : forall x, x <> t -> forall rs ws, In (x, rs, ws) (v_locks s) -> In (x, rs, ws) (v_locks s')).
+  { intros x Hx rs ws Hin. rewrite El. apply I. apply filter_In. split; auto. simpl.
+    apply negb_true_iff. now apply Nat.eqb_neq. }
+  destruct HI as [Isv Ind Iu Ibp Il Io Ith].
+  constructor.
+  - now rewrite Ep.
+  - now rewrite Ea.
+  - rewrite Ea, Eu. auto.
+  - rewrite Eb, Epd; auto.
+  - now rewrite El.
+  - rewrite Ei, Et. intros e He. destruct (Nat.eq_dec t (e_owner e)) as [<-|Hn].
+    + exists thf. apply e4_get_set_same.
+    + rewrite e4_get_set_other; auto. destruct (Io e He) as [thx Hthx].
+      destruct (F _ _ Hthx) as [F1|[F1 _]]; eauto.
+  - rewrite Et. intros x thx' Hx.
+    destruct (Nat.eq_dec t x) as [<-|Hn].
+    + rewrite e4_get_set_same in Hx. inversion Hx; subst thx'.
+      apply e4_benign_ok.
+      * right; left; exact Hpf.
+      * intros e He. rewrite Ei in He. eapply e4_no_own_pc; eauto.
+      * rewrite Hpf; discriminate.
+      * rewrite Hpf; discriminate.
+    + rewrite e4_get_set_other in Hx; auto.
+      destruct (get_thread (threads s) x) as [thx|] eqn:Hox; [|rewrite (Nn x Hox) in Hx; discriminate].
+      pose proof (Ith x thx Hox) as Kx.
+      assert (Kx' : e4_thread_ok s' x thx).
+      { eapply e4_thread_ok_frame; eauto; try lia. congruence. }
+      destruct (F _ _ Hox) as [F1|[F1 F2]]; rewrite F1 in Hx; inversion Hx; subst thx'; auto.
+      apply e4_thread_ok_grant; auto. intros _. unfold e4_holds. now rewrite El.
+Qed.
